@@ -594,7 +594,21 @@ pub fn judge_c17(r: &Resp, p: &Probe) -> Judge {
         }
         msg
     };
-    for (which, resp) in [("built in memory", &in_memory), ("parsed from reference encoding", &parsed), ("built earlier with the opposite state and reasons, then updated with add()", &updated)] {
+    // the same encoding reaching the parsers in small pieces (a response arriving over a network)
+    let k = 1 + (hash64(r) % 7) as usize;
+    let (src, _c) = Scripted::new(wire.clone(), Schedule::uniform(wire.len(), k), None);
+    let pieces = ipp::parser::IppParser::new(ipp::reader::IppReader::new(src)).parse().map_err(|e| Fail::new("C17/response-does-not-parse", format!("delivered in pieces of {k} octets: {e:?}")))?;
+    let (src, c2) = Scripted::new(wire.clone(), Schedule::uniform(wire.len(), k).with_stalls(hash64(r) | 1), None);
+    let pieces_async = drive(async move { ipp::parser::AsyncIppParser::new(ipp::reader::AsyncIppReader::new(src)).parse().await }, &[&c2], 50_000_000)
+        .map_err(|e| Fail::new("C17/executor", format!("{e:?}")))?
+        .map_err(|e| Fail::new("C17/response-does-not-parse", format!("async parser, delivered in pieces of {k} octets: {e:?}")))?;
+    for (which, resp) in [
+        ("built in memory", &in_memory),
+        ("parsed from reference encoding", &parsed),
+        ("built earlier with the opposite state and reasons, then updated with add()", &updated),
+        ("parsed (blocking) from the reference encoding delivered in small pieces", &pieces),
+        ("parsed (async) from the reference encoding delivered in small pieces with not-ready results", &pieces_async),
+    ] {
         let got = catch(|| ipp::util::is_printer_ready(resp)).map_err(|e| Fail::new(format!("C17/{}", panic_sig(&e)), format!("is_printer_ready panicked: {e}")))?;
         let describe = || format!("{which}: response {}", resp_json(r));
         if r.status > 0xff {
@@ -628,7 +642,7 @@ pub fn judge_c17(r: &Resp, p: &Probe) -> Judge {
 
 pub fn run_c17(ctx: &Ctx) {
     ctx.enable_traced_pass(4);
-    ctx.set_rule("proptest-generated responses: status (weighted to the three success codes, also 0x0003-0x00ff and any u16) x printer-state {absent, enum 3/4/5, other enum, integer 5, keyword} x printer-state-reasons {absent, one keyword, set of 1-8 keywords from the ten blocking and an informational vocabulary, blocking keyword at any position} x unrelated attributes and groups before/after (in 50 % of cases the operation group and the first preceding job/unsupported group carry harmless attributes of the same names: reasons 'none', out-of-band 'unsupported', state idle/processing - the printer-attributes group stays authoritative); each response is judged twice: built in memory, and encoded by the reference encoder and parsed by the library. Oracle = truth table from the statement (silent where it is silent). Non-trivial = success status and (blocking keyword not first in a set, or a single keyword, or stopped with harmless reasons); distinct by response hash.");
+    ctx.set_rule("proptest-generated responses: status (weighted to the three success codes, also 0x0003-0x00ff and any u16) x printer-state {absent, enum 3/4/5, other enum, integer 5, keyword} x printer-state-reasons {absent, one keyword, set of 1-8 keywords from the ten blocking and an informational vocabulary, blocking keyword at any position} x unrelated attributes and groups before/after (in 50 % of cases the operation group and the first preceding job/unsupported group carry harmless attributes of the same names: reasons 'none', out-of-band 'unsupported', state idle/processing - the printer-attributes group stays authoritative); each response is judged twice: built in memory, and encoded by the reference encoder and parsed by the library. Oracle = truth table from the statement (silent where it is silent). Non-trivial = success status and (blocking keyword not first in a set, or a single keyword, or stopped with harmless reasons); distinct by response hash. Each response is judged as five objects: built in memory; parsed from the reference encoding; built earlier with the opposite state/reasons and brought up to date with add(); parsed by the blocking parser from pieces of 1-7 octets; parsed by the async parser from such pieces with not-ready results.");
     ctx.assume("state/reasons are placed in the first printer-attributes group only; status 0x0003-0x00ff is not asserted");
     let (shards, per) = ctx.tier.pick((16, 15000), (16, 250000));
     run_prop(ctx, "readiness", shards, per, resp, judge_c17, resp_json);
